@@ -78,6 +78,24 @@ func init() {
 	intrinsics["(*fmt.wrapError).Error"] = func(in *Interp, fn *ssa.Function, a []Value) Value { return (*a[0].(*Value)).(Struct)[0] }
 	intrinsics["(*fmt.wrapErrors).Unwrap"] = func(in *Interp, fn *ssa.Function, a []Value) Value { return (*a[0].(*Value)).(Struct)[1] }
 	intrinsics["(*fmt.wrapErrors).Error"] = func(in *Interp, fn *ssa.Function, a []Value) Value { return (*a[0].(*Value)).(Struct)[0] }
+	// errors.Join's Error() builds its text with unsafe.String: concatenate the members' texts with newlines instead
+	intrinsics["(*errors.joinError).Error"] = func(in *Interp, fn *ssa.Function, a []Value) Value {
+		errs := (*a[0].(*Value)).(Struct)[0].(Slice)
+		out := mkStr("")
+		for i, e := range errs.A {
+			it := e.(Iface)
+			m := in.L.prog.LookupMethod(it.T, nil, "Error")
+			if m == nil {
+				panic(abort("joinError member without Error method"))
+			}
+			t := in.call(m, []Value{it.V}).(Term)
+			if i > 0 {
+				out = strConcat(out, mkStr("\n"))
+			}
+			out = strConcat(out, t)
+		}
+		return out
+	}
 	intrinsics["engine:nilctx"] = func(in *Interp, fn *ssa.Function, a []Value) Value { return Iface{} }
 	intrinsics["path.Join"] = func(in *Interp, fn *ssa.Function, a []Value) Value {
 		var parts []string
@@ -87,6 +105,85 @@ func init() {
 		return mkStr(path.Join(parts...))
 	}
 	registerJSON()
+	registerPureStr()
+	registerBytesBuffer()
+}
+
+// ---------- pure string -> string library functions on symbolic arguments ----------
+//
+// path.Clean and friends loop over the bytes of their argument; for a symbolic string they are modelled as an
+// uninterpreted function constrained by (a) true facts: the real function's result on a dictionary of sample inputs
+// (computed here by calling it), (b) a few laws, and (c) a replay hint that prefers dictionary inputs, so that a
+// counterexample is realisable natively. Sound for detection of "the name used differs from the name checked": the
+// solver may pick any input, but only facts that are true of the real function constrain the result.
+
+type pureStrFn struct {
+	smt  string
+	f    func(string) string
+	laws func(arg, res, fn string) []string
+}
+
+var pureStrDict = []string{"", "a", "b", "a/b", "b/a", "a/../b", "a//b", "./a", "a/", "/a", "a/./b", "../a", "A", "a ", " a", "_internal/a", "_internal/../a", "dev/../prod", "prod"}
+
+var pureStrFns = map[string]*pureStrFn{
+	"path.Clean": {smt: "pf_path_Clean", f: path.Clean, laws: func(arg, res, fn string) []string {
+		return []string{"(not (= " + res + " \"\"))", "(= (" + fn + " " + res + ") " + res + ")", "(<= (str.len " + res + ") (ite (= " + arg + " \"\") 1 (str.len " + arg + ")))"}
+	}},
+	"path/filepath.Clean": {smt: "pf_filepath_Clean", f: filepath.Clean, laws: func(arg, res, fn string) []string {
+		return []string{"(not (= " + res + " \"\"))", "(= (" + fn + " " + res + ") " + res + ")"}
+	}},
+	"strings.ToLower": {smt: "pf_strings_ToLower", f: strings.ToLower, laws: func(arg, res, fn string) []string {
+		return []string{"(= (str.len " + res + ") (str.len " + arg + "))", "(= (" + fn + " " + res + ") " + res + ")"}
+	}},
+	"strings.ToUpper": {smt: "pf_strings_ToUpper", f: strings.ToUpper, laws: func(arg, res, fn string) []string {
+		return []string{"(= (str.len " + res + ") (str.len " + arg + "))", "(= (" + fn + " " + res + ") " + res + ")"}
+	}},
+	"strings.TrimSpace": {smt: "pf_strings_TrimSpace", f: strings.TrimSpace, laws: func(arg, res, fn string) []string {
+		return []string{"(str.contains " + arg + " " + res + ")", "(= (" + fn + " " + res + ") " + res + ")"}
+	}},
+}
+
+func registerPureStr() {
+	for name, pf := range pureStrFns {
+		pf := pf
+		intrinsics[name] = func(in *Interp, fn *ssa.Function, a []Value) Value {
+			s := a[0].(Term)
+			if bs, ok := strConcreteBytes(s); ok {
+				return mkStr(pf.f(string(bs)))
+			}
+			if in.pureDeclared == nil {
+				in.pureDeclared = map[string]bool{}
+			}
+			if !in.pureDeclared[pf.smt] {
+				in.pureDeclared[pf.smt] = true
+				in.sess.Cmd("(declare-fun " + pf.smt + " (String) String)")
+				for _, d := range pureStrDict {
+					in.sess.Cmd("(assert (= (" + pf.smt + " " + mkStr(d).smt() + ") " + mkStr(pf.f(d)).smt() + "))")
+				}
+			}
+			arg := s.smt()
+			res := "(" + pf.smt + " " + arg + ")"
+			for _, l := range pf.laws(arg, res, pf.smt) {
+				in.sess.Cmd("(assert " + l + ")")
+			}
+			var alts []string
+			for _, d := range pureStrDict {
+				alts = append(alts, "(= "+arg+" "+mkStr(d).smt()+")")
+			}
+			in.hints = append(in.hints, "(or "+strings.Join(alts, " ")+")")
+			in.trace = append(in.trace, "pure string function "+name+" on a symbolic argument (uninterpreted, sample facts)")
+			return symStr(res)
+		}
+	}
+	intrinsics["strings.Index"] = func(in *Interp, fn *ssa.Function, a []Value) Value {
+		s, sub := a[0].(Term), a[1].(Term)
+		if sb, ok := strConcreteBytes(s); ok {
+			if tb, ok := strConcreteBytes(sub); ok {
+				return mkBV(64, uint64(int64(strings.Index(string(sb), string(tb)))))
+			}
+		}
+		return symBV(64, "((_ int2bv 64) (str.indexof "+s.smt()+" "+sub.smt()+" 0))")
+	}
 }
 
 func iNoop(in *Interp, fn *ssa.Function, a []Value) Value { return in.zeroResults(fn) }
